@@ -43,11 +43,12 @@ func TestC10NoHalt(t *testing.T) {
 	rapid.Check(t, func(t *rapid.T) {
 		spec := chain.GenSpec(t)
 		curSpec = spec
+		chain.AllowZeroVotingStake = !ev.Excluded(chain.SigZeroVotingStake)
 		// traffic mix: hostile staking/governance traffic, optionally with the registry generator of C17 (role changes,
 		// migrations, foreign listings, key rotations) or the debonding-heavy profile of C15 on top; with a runtime, half
 		// of the cases script whole runtime rounds (chain.roundDriver) in epochs long enough for a round to time out,
 		// be resolved by the backup workers or fail
-		traffic := rapid.SampledFrom([]string{"hostile", "hostile", "hostile+registry", "debond+registry", "hostile+rtheavy", "rtheavy"}).Draw(t, "traffic")
+		traffic := rapid.SampledFrom([]string{"hostile", "hostile", "hostile+registry", "debond+registry", "hostile+rtheavy", "rtheavy", "hostile+gov", "gov"}).Draw(t, "traffic")
 		if spec.WithRuntime && rapid.Bool().Draw(t, "rtTraffic") {
 			traffic = rapid.SampledFrom([]string{"hostile+rtheavy", "rtheavy"}).Draw(t, "rtTrafficKind")
 			if iv := int64(rapid.SampledFrom([]int{0, 8, 12, 20}).Draw(t, "rtEpochInterval")); iv > spec.EpochInterval {
@@ -105,6 +106,10 @@ func TestC10NoHalt(t *testing.T) {
 			}
 			epochChanged := uint64(view.Epoch) != lastEpoch && lastEpoch != 0
 			lastEpoch = uint64(view.Epoch)
+			if strings.Contains(traffic, "gov") {
+				props, _ := view.Gov.ActiveProposals(view.Ctx())
+				rec.Label(fmt.Sprintf("gov-traffic:open-proposals=%d", min(len(props), 3)))
+			}
 			bg := sim.GenBlock(t, view, ev.Pick(8, 14))
 			regOf := map[*chain.TxDesc]*chain.RegTx{}
 			if withRegistry {
@@ -166,6 +171,13 @@ func TestC10NoHalt(t *testing.T) {
 					rec.Discard("precondition-lost")
 					return
 				}
+				if hs := chain.KnownHalt(err.Error()); hs != "" {
+					if ev.Excluded(hs) {
+						rec.Discard("known-finding:" + hs)
+						return
+					}
+					fail(hs, "height %d: an honest proposer (mempool of %d CheckTx-approved transactions) could not prepare a proposal: %v", b.Height, len(use), err)
+				}
 				fail("honest-proposal-failed", "height %d: an honest proposer (mempool of %d CheckTx-approved transactions) could not prepare a proposal: %v", b.Height, len(use), err)
 			}
 			injected := 0
@@ -217,6 +229,13 @@ func TestC10NoHalt(t *testing.T) {
 						rec.Discard("precondition-lost")
 						return
 					}
+					if hs := chain.KnownHalt(err.Error()); hs != "" {
+						if ev.Excluded(hs) {
+							rec.Discard("known-finding:" + hs)
+							return
+						}
+						fail(hs, "height %d: after a rejected Byzantine round the honest proposer could not prepare a proposal: %v", b.Height, err)
+					}
 					fail("honest-proposal-failed", "height %d: after a rejected Byzantine round the honest proposer could not prepare a proposal: %v", b.Height, err)
 				}
 				proc = sim.E.Execute(sim.Reps[procIdx], b, chain.PathProcess, nil)
@@ -229,6 +248,13 @@ func TestC10NoHalt(t *testing.T) {
 					rec.Discard("precondition-lost")
 					return
 				}
+				if hs := chain.KnownHalt(proc.Err.Error()); hs != "" {
+					if ev.Excluded(hs) {
+						rec.Discard("known-finding:" + hs)
+						return
+					}
+					fail(hs, "height %d: accepted block panicked on the process path: %v", b.Height, proc.Err)
+				}
 				fail("block-halts-chain", "height %d: accepted block panicked on the process path: %v", b.Height, proc.Err)
 			}
 			repl := sim.E.Execute(sim.Reps[1-procIdx], b, chain.PathReplay, nil)
@@ -236,6 +262,13 @@ func TestC10NoHalt(t *testing.T) {
 				if preconditionLost(repl.Err.Error()) {
 					rec.Discard("precondition-lost")
 					return
+				}
+				if hs := chain.KnownHalt(repl.Err.Error()); hs != "" {
+					if ev.Excluded(hs) {
+						rec.Discard("known-finding:" + hs)
+						return
+					}
+					fail(hs, "height %d: a block accepted by ProcessProposal panics on the replay path: %v", b.Height, repl.Err)
 				}
 				fail("block-halts-chain", "height %d: a block accepted by ProcessProposal panics on the replay path: %v", b.Height, repl.Err)
 			}
@@ -254,6 +287,9 @@ func TestC10NoHalt(t *testing.T) {
 					if strings.HasPrefix(d.Note, "scripted round") {
 						rec.Label(fmt.Sprintf("scripted-vote:result=%s/%d", res.Codespace, res.Code))
 					}
+				}
+				if strings.Contains(d.Note, "by a delegator") || strings.Contains(d.Note, "whole delegation") || strings.Contains(d.Note, "delegator script") {
+					rec.Label(fmt.Sprintf("tx:%s (%s):ok=%v", d.Method, strings.TrimSpace(d.Note), res.Code == 0))
 				}
 				if rt := regOf[d]; rt != nil && res.Code == 0 && rt.Unauthorized == "" && rt.OnSuccess != nil {
 					rt.OnSuccess()
